@@ -59,3 +59,62 @@ pub fn artefacts(f: &Full) -> BTreeMap<Kind, Vec<u8>> {
     m.insert(Kind::SLogin, f.login.slogin.clone());
     m
 }
+
+// ------------------------------------------------------------------------------------------------
+// the input space shared by C01 and C09: tuples (password, credential id, client identity, server identity,
+// context, tape) with at most k deviations from the default tuple, plus a boundary product in the thorough tier
+// ------------------------------------------------------------------------------------------------
+use crate::alphabet as al;
+use crate::fw::Tier;
+
+#[derive(Clone, Debug, PartialEq, Eq, Hash)]
+pub struct InTuple {
+    pub p: Params,
+    /// server identity is the explicit spelling of the server's static public key (resolved at run time)
+    pub ids_is_server_pk: bool,
+    pub tape: usize,
+    pub devs: usize,
+}
+impl InTuple {
+    pub fn describe(&self) -> serde_json::Value {
+        let mut v = self.p.describe();
+        v["tape"] = serde_json::json!(self.tape);
+        v["deviations"] = serde_json::json!(self.devs);
+        if self.ids_is_server_pk {
+            v["ids"] = serde_json::json!("explicit spelling of the server public key");
+        }
+        v
+    }
+}
+
+pub fn input_tuples(tier: Tier) -> Vec<InTuple> {
+    let (pws, cids, idus, mut idss, ctxs, ntapes, k) = if tier.thorough() {
+        (al::passwords_valid(), al::cids_full(), al::idvals_full(), al::idvals_full(), al::ctxvals_full(), 4usize, 3usize)
+    } else {
+        (al::passwords_core(), al::cids_core(), al::idvals_core(), al::idvals_core(), al::ctxvals_core(), 2usize, 2usize)
+    };
+    // one more server-identity value: the server's own public key spelled out (marker resolved later)
+    idss.push(Some(b"\0SERVER-PK\0".to_vec()));
+    let spk_idx = idss.len() - 1;
+    let sizes = [pws.len(), cids.len(), idus.len(), idss.len(), ctxs.len(), ntapes];
+    let mk = |ix: &[usize], devs: usize| InTuple {
+        p: Params { pw: pws[ix[0]].clone(), cid: cids[ix[1]].clone(), idu: idus[ix[2]].clone(), ids: if ix[3] == spk_idx { None } else { idss[ix[3]].clone() }, ctx: ctxs[ix[4]].clone(), ksf: None },
+        ids_is_server_pk: ix[3] == spk_idx,
+        tape: ix[5],
+        devs,
+    };
+    let mut out: Vec<InTuple> = al::deviations(&sizes, k).iter().map(|ix| mk(ix, ix.iter().filter(|x| **x != 0).count())).collect();
+    if tier.thorough() {
+        // full product over the boundary sub-alphabet {"", 255, 256, 65535 bytes}
+        let bpw = vec![pws[1].clone(), pws[11].clone(), pws[12].clone(), pws[13].clone()];
+        let bid = vec![idus[1].clone(), idus[4].clone(), idus[5].clone(), idus[6].clone()];
+        let bctx = vec![ctxs[1].clone(), ctxs[3].clone(), ctxs[4].clone(), ctxs[5].clone()];
+        for ix in al::product(&[4, 4, 4, 4]) {
+            out.push(InTuple { p: Params { pw: bpw[ix[0]].clone(), cid: al::CID_DEFAULT.to_vec(), idu: bid[ix[1]].clone(), ids: bid[ix[2]].clone(), ctx: bctx[ix[3]].clone(), ksf: None }, ids_is_server_pk: false, tape: 0, devs: 4 });
+        }
+    }
+    // dedupe (the product overlaps the deviation set), keeping first occurrences (simplest first)
+    let mut seen = std::collections::HashSet::new();
+    out.retain(|t| seen.insert(crate::fw::h128(t)));
+    out
+}
